@@ -166,6 +166,11 @@ fn build_with(ops: &[Value], via_element_writer: &mut Vec<u8>, form: u8) -> Vec<
                 for (key, val) in pairs(&a[2]) {
                     e.push_attribute(attr_of(key.as_str(), val.as_str(), form));
                 }
+                // form 3: the in-place edits are applied to a tag whose buffer is BORROWED (as a tag handed out by a reader, or one
+                // made with from_content / borrow() is), then detached again
+                let content_copy: String = String::from_utf8(e.to_vec()).unwrap();
+                let name_len = e.name().as_ref().len();
+                let mut e = if form == 3 { BytesStart::from_content(content_copy.as_str(), name_len) } else { e };
                 for ed in a[3].as_array().unwrap() {
                     let ed = ed.as_array().unwrap();
                     match ed[0].as_str().unwrap() {
@@ -182,6 +187,7 @@ fn build_with(ops: &[Value], via_element_writer: &mut Vec<u8>, form: u8) -> Vec<
                         }
                     }
                 }
+                let e = e.into_owned();
                 evs.push(if k == "start" { Event::Start(e) } else { Event::Empty(e) });
             }
             "end" => evs.push(Event::End(BytesEnd::new(s(&a[1])))),
@@ -316,13 +322,13 @@ pub fn replay(file: &str, prop: &str, out_dir: &str) -> Value {
                 let evs = build(ops, &mut scratch);
                 let out = write_sync(&evs, None);
                 // the other conversions of a string pair into an attribute build the same bytes
-                for form in [1u8, 2] {
+                for form in [1u8, 2, 3] {
                     let alt = write_sync(&build_with(ops, &mut scratch, form), None);
                     cmp += 1;
                     if alt != out && read_back(&alt).is_ok() && read_back(&alt) == read_back(&out) {
                         drift += 1; // another spelling that reads back as the same events: tag I
                     } else if alt != out {
-                        bad = bad.or(Some(("attribute-conversion-differs".into(), json!({"form": if form == 1 { "(&str, Cow::Borrowed)" } else { "(&str, Cow::Owned)" },
+                        bad = bad.or(Some(("attribute-conversion-differs".into(), json!({"form": if form == 1 { "(&str, Cow::Borrowed)" } else if form == 2 { "(&str, Cow::Owned)" } else { "edits applied to a tag with a borrowed buffer" },
                             "with_str_pair": String::from_utf8_lossy(&out), "with_cow": String::from_utf8_lossy(&alt)}))));
                     }
                 }
